@@ -88,4 +88,22 @@ CHECKS = {
             {"pkg": "internal/storage", "test": "TestVerif_C20Store"},
         ],
     },
+    "C16": {
+        "level": "exploration",
+        "technique": "runtime monitoring: client-boundary history checker of concurrent RemoteClient calls against a scripted loopback server with self-identifying responses, under the Go race detector in the thorough tier",
+        "level_text": "Each round starts the real RemoteClient against a scripted TCP server and issues 2-24 concurrent calls with distinct keys; the server answers by script (permuted by delays, duplicated, rejected, never, after the time-out) and interleaves unsolicited responses. Every response identifies its key, so the oracle checks per call that the returned value / RejectError / Timeout is the one scripted for that call, and that a time-out is not early. Outputs-lookup rounds cover repeated txids and out-of-range indexes. Exploration: schedules and response orders are unbounded.",
+        "level_note": "Trusted: the scripted server (uses the repository's own message codecs and key derivation). An answered call that times out is only judged when the answer was on the wire >300 ms before the deadline and the round reproduces when re-run alone.",
+        "runs": [
+            {"pkg": "pkg/client", "test": "TestVerif_C16", "shards": {"quick": 8, "thorough": 16}},
+        ],
+    },
+    "C17": {
+        "level": "exploration",
+        "technique": "runtime monitoring: offline checker over the recorded handler callbacks (consecutive message ids, same order on every handler, NextMessageID at barriers) for generated perturbed server streams with connection drops",
+        "level_text": "The real RemoteClient runs against a scripted server that, like the real service, resends from the id declared in Ready and perturbs the stream with duplicates, earlier ids, skipped ids, interleaved Headers/InSync and drops at generated points; handlers record every callback. The checker demands delivered ids = ready, ready+1, ... without gap or repeat on every handler, NextMessageID() = last delivered + 1 at the barrier (marker message through the same FIFO), and that nothing is missed once the server has resent everything in order. A slow-handler family fills the handler channel. Exploration: streams and drop placements are unbounded.",
+        "level_note": "Trusted: the scripted server's resume-from-Ready behaviour as the model of the real service; the barrier relies on the client's handler channel being FIFO (which is itself part of the property and checked through the order of ids).",
+        "runs": [
+            {"pkg": "pkg/client", "test": "TestVerif_C17", "shards": {"quick": 8, "thorough": 16}},
+        ],
+    },
 }
